@@ -15,7 +15,7 @@ import sys
 import types
 import z3
 
-from .sorts import (HeapRef, Sym, SInt, SBool, SBytes, SStr, SVal, SVL, SF64, Val, VL, Bytes, Int, Bool, F64, SORTS,
+from .sorts import (SReal, Real, HeapRef, Sym, SInt, SBool, SBytes, SStr, SVal, SVL, SF64, Val, VL, Bytes, Int, Bool, F64, SORTS,
                     WRAP, seq_lit, fresh, typeof, typeof_axiom, type_id, TYPE_ID, wrap_sort)
 from . import ops
 from .ops import Unsupported, truth, b2v, i2v, zint, zbool, zseq, to_val, to_vl, Choice, TRUE, FALSE, is_sym
@@ -76,9 +76,13 @@ _oid_counter = [0]
 class Obj(HeapRef):
     """a heap object with concrete identity (parameters, allocations, model objects)"""
 
-    def __init__(self, cls, name, kind="obj"):
+    REGISTRY = {}
+
+    def __init__(self, cls, name, kind="obj", allocated=False):
         _oid_counter[0] += 1
         self.oid = _oid_counter[0]
+        self.allocated = allocated      # created by the code under analysis (fresh), not part of the entry state
+        Obj.REGISTRY[self.oid] = self
         self.cls = cls          # real Python class, or a model-class name (str)
         self.name = name
         self.kind = kind        # obj | joinlist | list | dict | exc
@@ -289,6 +293,26 @@ class Executor(object):
                                            meta={"labels": list(st.labels), "function": c.target,
                                                  "behaviour": b.name}))
 
+    def clock0(self):
+        if not hasattr(self, "_clock0"):
+            self._clock0 = SReal(z3.Const("$now0", Real))
+        return self._clock0
+
+    def clock_tick(self, st, tag):
+        """time.time(): a value not earlier than anything read before; becomes the new ghost `now`"""
+        prev = st.ghost["$now"] if "$now" in st.ghost else self.clock0()
+        t = SReal(fresh("time@%s" % tag, Real))
+        st.assume(t.z >= prev.z)
+        st.ghost["$now"] = t
+        return t
+
+    def clock_advance(self, st, tag):
+        """time passes inside a callee (the clock is only ever read through time.time())"""
+        prev = st.ghost["$now"] if "$now" in st.ghost else self.clock0()
+        t = SReal(fresh("now@%s" % tag, Real))
+        st.assume(t.z >= prev.z)
+        st.ghost["$now"] = t
+
     def canary(self, st, where, pc_before):
         """vacuity guard: assuming a contract / invariant / precondition must not make the path infeasible"""
         c, b = self.cur[0], self.cur[1]
@@ -317,6 +341,8 @@ class Executor(object):
             return None
         if sort == "dict":
             return Obj(dict, name, "dict")
+        if sort == "vlist":
+            return Obj(list, name, "vlist")
         if sort == "dict:slot":
             o = Obj(dict, name, "dict")
             o.valkind = "slot"
@@ -354,6 +380,10 @@ class Executor(object):
                  "n": SInt(z3.Const("%s.n#%d" % (obj.name, obj.oid), Int))}[field]
             self.field_init[k] = v
             return v
+        if obj.kind == "vlist" and field == "items":
+            v = SVL(z3.Const("%s.items#%d" % (obj.name, obj.oid), VL))
+            self.field_init[k] = v
+            return v
         if obj.kind == "dict" and field in ("map", "has"):
             rng = Val if field == "map" else Bool
             v = SArr(z3.Const("%s.%s#%d" % (obj.name, field, obj.oid), z3.ArraySort(Val, rng)))
@@ -383,15 +413,20 @@ class Executor(object):
         self.cur = (contract, beh, funcobj, mod, node)
         self.loop_nodes = self.collect_loops(node)
         self.call_ordinals = {}
+        self.spec.revealed = set(beh.reveal)
+        self.spec.max_unfold = beh.unfold_depth
         st = State()
         # parameters
         argnames = [a.arg for a in node.args.args]
         if node.args.vararg:
             argnames.append(node.args.vararg.arg)
+        if node.args.kwarg:
+            argnames.append(node.args.kwarg.arg)
+        argnames += [a.arg for a in node.args.kwonlyargs]
         for a in argnames:
             if a not in contract.params:
                 raise CheckerError("contract of %s lacks parameter %s" % (contract.target, a))
-            st.env[a] = self.fresh_of(contract.params[a], a)
+            st.env[a] = self.fresh_of(beh.params.get(a, contract.params[a]), a)
         for p in contract.params:
             if p not in argnames:
                 raise CheckerError("stale contract %s: parameter %s no longer exists" % (contract.target, p))
@@ -506,6 +541,10 @@ class Executor(object):
         if beh.noreturn:
             self.oblige(st, "post:never-returns@%s" % lab, FALSE, props=self.all_props(beh), kind="post",
                         note="the contract says this function always raises")
+        for i, cond in enumerate(beh.returns_when):
+            z, facts = self.spec_bool(pre, pre, cond, self.spec_scope(pre))
+            self.oblige(st, "post:returns-only-when.%d@%s" % (i, lab), z, props=self.all_props(beh), kind="post",
+                        extra_hyps=facts, note="a normal return is possible only under this condition on the entry state")
         # in postconditions a parameter name denotes its value at entry (parameters are mutable locals)
         scope = self.spec_scope(st, dict(pre.env, result=value))
         for cname, (expr, props) in beh.ensures.items():
@@ -552,9 +591,8 @@ class Executor(object):
             old = pre.heap.get(k, self.field_init.get(k, None))
             if old is v:
                 continue
-            if k not in pre.heap and k not in self.field_init:
-                if self.is_fresh_obj(k[0], pre):
-                    continue
+            if self.is_fresh_obj(k[0], pre):
+                continue            # an object allocated by this very call: not part of the caller-visible frame
             try:
                 same = ops.eq(v, old) if not (isinstance(v, Obj) or isinstance(old, Obj)) else ops.identical(v, old)
             except Unsupported:
@@ -563,7 +601,8 @@ class Executor(object):
                         kind="frame", note="location outside `modifies` must be unchanged")
 
     def is_fresh_obj(self, oid, pre):
-        return oid > self.pre_oid_mark
+        o = Obj.REGISTRY.get(oid)
+        return o is not None and o.allocated
 
     def obj_name(self, oid):
         return self.oid_names.get(oid, "#%d" % oid)
@@ -580,6 +619,8 @@ class Executor(object):
                 return {(v.oid, "joined"), (v.oid, "n")}
             if isinstance(v, Obj) and v.kind == "dict":
                 return {(v.oid, "map"), (v.oid, "has")}
+            if isinstance(v, Obj) and v.kind == "vlist":
+                return {(v.oid, "items")}
             if isinstance(v, Obj):
                 return {(v.oid, f) for f in self.all_fields(v)}
             return set()
@@ -588,10 +629,13 @@ class Executor(object):
         if parts[-1] == "*":
             return {(v.oid, f) for f in self.all_fields(v)}
         tgt = self.heap_get(st, v, parts[-1])
+        # a path to a container denotes the field AND the container's contents
         if isinstance(tgt, Obj) and tgt.kind == "dict":
-            return {(tgt.oid, "map"), (tgt.oid, "has")}      # a path to a container denotes its contents
+            return {(v.oid, parts[-1]), (tgt.oid, "map"), (tgt.oid, "has")}
         if isinstance(tgt, Obj) and tgt.kind == "joinlist":
-            return {(tgt.oid, "joined"), (tgt.oid, "n")}
+            return {(v.oid, parts[-1]), (tgt.oid, "joined"), (tgt.oid, "n")}
+        if isinstance(tgt, Obj) and tgt.kind == "vlist":
+            return {(v.oid, parts[-1]), (tgt.oid, "items")}
         return {(v.oid, parts[-1])}
 
     def all_fields(self, obj):
@@ -698,6 +742,12 @@ class Executor(object):
                     continue
                 if not isinstance(o, Obj):
                     raise Unsupported("attribute assignment on %r (line %d)" % (o, target.lineno))
+                if self.field_sort(o, target.attr) == "vlist" and isinstance(v, Obj) and v.kind == "joinlist" and \
+                        self.heap_get(st1, v, "n") == 0:
+                    v = Obj(list, "%s.%s" % (o.name, target.attr), "vlist", allocated=True)   # `[]` stored in a list-of-values field
+                    st1.heap[(v.oid, "items")] = SVL(VL.nil)
+                if self.field_sort(o, target.attr) in ("dict", "dict:slot") and isinstance(v, dict) and not v:
+                    v = self.lib.lift_dict(self, st1, v, "%s.%s" % (o.name, target.attr))
                 st1.heap[(o.oid, target.attr)] = v
                 res.append((st1, None))
             return res
@@ -805,12 +855,21 @@ class Executor(object):
     def feasible(self, st):
         return self.spec.quick_feasible(st.pc)
 
+    def truth_of(self, st, v):
+        if isinstance(v, Obj) and v.kind == "vlist":
+            return z3.simplify(self.heap_get(st, v, "items").z != VL.nil)
+        if isinstance(v, Obj) and v.kind == "joinlist":
+            return z3.simplify(zint(self.heap_get(st, v, "n")) > 0)
+        if isinstance(v, Obj) and v.kind == "dict":
+            return z3.simplify(self.heap_get(st, v, "has").z != z3.K(Val, z3.BoolVal(False)))
+        return truth(v)
+
     def ev_truth(self, st, e):
         for st1, v in self.ev(st, e):
             if isinstance(v, Raised):
                 yield st1, v
             else:
-                yield st1, truth(v)
+                yield st1, self.truth_of(st1, v)
 
     def st_Raise(self, st, s):
         if s.exc is None:
@@ -984,17 +1043,9 @@ class Executor(object):
                 st.heap[(o.oid, "n")] = SInt(fresh("%s.n@loop%d" % (n, k), Int))
             else:
                 st.env[n] = self.fresh_of(sort, "%s@loop%d" % (n, k))
-        for m in lc.get("modifies", []):
-            for key in self.resolve_location(st, m):
-                obj_oid, f = key
-                srt = None
-                for o in self.live_objs(st):
-                    if o.oid == obj_oid:
-                        srt = self.field_sort(o, f)
-                        name = "%s.%s@loop%d" % (o.name, f, k)
-                if srt is None:
-                    raise CheckerError("cannot havoc %s" % m)
-                st.heap[key] = self.fresh_of(srt, name)
+        if lc.get("modifies"):
+            env = self.spec_scope(st)
+            self.havoc_modifies(st, env, lc["modifies"], "loop%d" % k)
 
     def live_objs(self, st):
         seen = {}
@@ -1061,25 +1112,41 @@ class Executor(object):
         h.labels = ["loop%d" % k]
         self.havoc(h, self.assigned_names(s.body), lc, k)
         self.loop_ghost_havoc(h, lc, k)
+        local = bool(lc.get("body_events")) or lc.get("local_trace")
+        outer_trace = list(st.trace)
+        if local:
+            h.trace = []
+
+        def leave(s_):
+            if local:
+                s_.trace = outer_trace + [("Loop", k, {g: s_.ghost.get(g) for g in lc.get("ghost", {})})] + s_.trace
+            return self.rejoin(st, s_)
+        if lc.get("clock"):
+            self.clock_advance(h, "loop%d" % k)
         self.assume_invariants(h, lc)
         for st1, c in self.ev_truth(h, s.test):
             if isinstance(c, Raised):
-                yield self.rejoin(st, st1), c
+                yield leave(st1), c
                 continue
             for st2, taken in self.branch(st1, c, s):
                 if not taken:
-                    out_st = self.rejoin(st, st2)
+                    out_st = leave(st2)
                     for r in self.exec_block(out_st, s.orelse):
                         yield r
                     continue
                 for st3, out in self.exec_block(st2, s.body):
                     if out is None or isinstance(out, Cont):
+                        for i, be in enumerate(lc.get("body_events", [])):
+                            z, facts = self.spec_bool(st3, self.pre_state, be, self.spec_scope(st3))
+                            self.oblige(st3, "inv-body-events:%d@loop%d[%s]" % (i, k, self.path_label(st3)), z,
+                                        props=lc.get("props", self.all_props(self.cur[1])), kind="inv", extra_hyps=facts,
+                                        note="ghost events of one iteration")
                         self.loop_ghost_step(st3, lc)
                         self.check_invariants(st3, lc, k, "keep")
                     elif isinstance(out, Brk):
-                        yield self.rejoin(st, st3), None
+                        yield leave(st3), None
                     else:
-                        yield self.rejoin(st, st3), out
+                        yield leave(st3), out
 
     def rejoin(self, outer, inner):
         """continue after the loop: keep the loop-head state, restore the outer path labels"""
@@ -1103,6 +1170,10 @@ class Executor(object):
             return
         k, lc = self.loop_contract(node)
         restname = lc.get("rest", "rest")
+        if isinstance(it, Obj) and it.kind == "vlist":
+            # iteration over a list object: over its items at loop entry (the body must not resize it: not checked
+            # beyond what the invariant says about the list)
+            it = self.heap_get(st, it, "items")
         if isinstance(it, SVal):
             # iterating a dynamic value: its item list if it is a tuple; anything else is the library model's business
             for st1, vl in self.lib.iter_val(self, st, it, node):
@@ -1146,6 +1217,8 @@ class Executor(object):
         self.check_invariants(st, lc, k, "init")
         h = st.fork()
         h.labels = ["loop%d" % k]
+        outer_trace = list(st.trace)
+        h.trace = []            # events of ONE iteration; the loop as a whole becomes one summary event
         names = self.assigned_names(body) | self.assigned_names([ast.Expr(value=target)]) if False else self.assigned_names(body)
         self.havoc(h, names, lc, k)
         rest = SVL(fresh("%s@loop%d" % (restname, k), VL))
@@ -1153,7 +1226,10 @@ class Executor(object):
         self.loop_ghost_havoc(h, lc, k)
         self.assume_invariants(h, lc)
         # exit
+        def summary(s):
+            return ("Loop", k, {g: s.ghost.get(g) for g in lc.get("ghost", {})})
         ex = h.fork().assume(rest.z == VL.nil).label("L%d:exit" % self.rel_line(node))
+        ex.trace = outer_trace + [summary(ex)]
         self.use_hints(ex, lc.get("exit_hints", []))
         for r in self.exec_block(self.rejoin(st, ex), orelse):
             yield r
@@ -1162,15 +1238,23 @@ class Executor(object):
         it.ghost[restname] = SVL(VL.tl(rest.z))
         for st1, o in self.assign(it, target, SVal(VL.hd(rest.z))):
             if o is not None:
+                st1.trace = outer_trace + [summary(st1)] + st1.trace
                 yield self.rejoin(st, st1), o
                 continue
             for st2, out in self.exec_block(st1, body):
                 if out is None or isinstance(out, Cont):
+                    for i, be in enumerate(lc.get("body_events", [])):
+                        z, facts = self.spec_bool(st2, self.pre_state, be, self.spec_scope(st2))
+                        self.oblige(st2, "inv-body-events:%d@loop%d[%s]" % (i, k, self.path_label(st2)), z,
+                                    props=lc.get("props", self.all_props(self.cur[1])), kind="inv", extra_hyps=facts,
+                                    note="ghost events of one iteration")
                     self.loop_ghost_step(st2, lc)
                     self.check_invariants(st2, lc, k, "keep")
                 elif isinstance(out, Brk):
+                    st2.trace = outer_trace + [summary(st2)] + st2.trace
                     yield self.rejoin(st, st2), None
                 else:
+                    st2.trace = outer_trace + [summary(st2)] + st2.trace
                     yield self.rejoin(st, st2), out
 
     def for_range(self, st, node, rng, target, body, orelse, k, lc):
@@ -1284,7 +1368,7 @@ class Executor(object):
             if isinstance(v, Raised) or len(values) == 1:
                 yield st1, v
                 continue
-            t = truth(v)
+            t = self.truth_of(st1, v)
             for st2, taken in self.branch(st1, t, e):
                 stop = (not taken) if isinstance(e.op, ast.And) else taken
                 if stop:
@@ -1298,7 +1382,7 @@ class Executor(object):
             if isinstance(v, Raised):
                 yield st1, v
             elif isinstance(e.op, ast.Not):
-                t = truth(v)
+                t = self.truth_of(st1, v)
                 yield st1, ((not t) if isinstance(t, bool) else b2v(z3.Not(t)))
             elif isinstance(e.op, ast.USub):
                 if isinstance(v, SInt):
@@ -1315,6 +1399,14 @@ class Executor(object):
         provably be of that kind here (obligation), then it is projected"""
         if not isinstance(v, SVal):
             return v
+        if kind == "num":
+            f64_real = self.spec.uf["f64_real"]
+            ok = z3.Or(Val.is_VInt(v.z), Val.is_VFloat(v.z))
+            self.oblige(st, "dynamic-type:%s is a number@L%d[%s]" % (what, self.rel_line(node), self.path_label(st)), ok,
+                        props=self.all_props(self.cur[1]), kind="pre",
+                        note="arithmetic / ordering on a dynamically typed value is modelled for int and float only")
+            st.assume(ok)
+            return SReal(z3.If(Val.is_VInt(v.z), z3.ToReal(Val.vi(v.z)), f64_real(Val.vf(v.z))))
         test, proj, W = {"bool": (Val.is_VBool, Val.vb, SBool), "str": (Val.is_VStr, Val.vs, SStr),
                          "bytes": (Val.is_VBytes, Val.vby, SBytes), "int": (Val.is_VInt, Val.vi, SInt)}[kind]
         self.oblige(st, "dynamic-type:%s is %s@L%d[%s]" % (what, kind, self.rel_line(node), self.path_label(st)),
@@ -1337,7 +1429,7 @@ class Executor(object):
                 elif isinstance(e.op, ast.Add):
                     other = b if isinstance(a, SVal) else a
                     k = "str" if ops.is_strlike(other) else "bytes" if ops.is_byteslike(other) else \
-                        "int" if ops.is_intlike(other) else "str"
+                        "num" if isinstance(other, SReal) else "int" if ops.is_intlike(other) else "str"
                     a, b = self.narrow(st1, a, k, e, "operand"), self.narrow(st1, b, k, e, "operand")
             for r in self.with_errs(st1, ops.binop(e.op, a, b), e):
                 yield r
@@ -1373,8 +1465,9 @@ class Executor(object):
                         outs = [(s, v if isinstance(v, Raised) else self.negate(v)) for s, v in outs]
                 else:
                     if isinstance(op, (ast.Lt, ast.LtE, ast.Gt, ast.GtE)) and (isinstance(lv, SVal) or isinstance(rv, SVal)):
-                        lv2 = self.narrow(st1, lv, "int", e, "comparison operand")
-                        rv = self.narrow(st1, rv, "int", e, "comparison operand")
+                        k = "num"       # ordering of dynamic values: ints and floats, compared as reals
+                        lv2 = self.narrow(st1, lv, k, e, "comparison operand")
+                        rv = self.narrow(st1, rv, k, e, "comparison operand")
                     else:
                         lv2 = lv
                     outs = self.with_errs(st1, ops.compare(op, lv2, rv), e)
@@ -1425,6 +1518,10 @@ class Executor(object):
         except AttributeError:
             yield st, Raised(AttributeError, ExcObj(AttributeError))
             return
+        except Exception as ex:        # e.g. ClosedFile.__getattr__ raising EOFError
+            yield st.label("L%d:.%s raises %s" % (self.rel_line(node), name, type(ex).__name__)), \
+                Raised(type(ex), ExcObj(type(ex)))
+            return
         if isinstance(o, types.ModuleType) or isinstance(o, type):
             yield st, self.lib.wrap_global(self, o, name, v)
             return
@@ -1464,6 +1561,13 @@ class Executor(object):
 
     # -- calls ----------------------------------------------------------------------------------
     def ex_Call(self, st, e):
+        ac = self.cur[0].abstract_calls
+        if ac:
+            src = ast.unparse(e.func)
+            if src in ac:
+                for r in self.abstract_call(st, e, src, ac[src]):
+                    yield r
+                return
         # comprehension idioms first
         if isinstance(e.func, ast.Name) and e.func.id in ("tuple", "all", "any", "list") and len(e.args) == 1 \
                 and isinstance(e.args[0], ast.GeneratorExp) and e.func.id not in st.env:
@@ -1505,6 +1609,28 @@ class Executor(object):
                 for r in self.call(st2, f, args, kwargs, e):
                     yield r
 
+    def abstract_call(self, st, e, src, model):
+        """a call the contract abstracts by a library model (stated in the contract store and the evidence):
+        the arguments are still evaluated by the real code's rules; `log` = no effect, cannot raise (A-LOG)"""
+        self.lib.used.add("abstracted call `%s(...)` -> model %s" % (src, model))
+        exprs = [a.value if isinstance(a, ast.Starred) else a for a in e.args] + [k.value for k in e.keywords]
+        extra = []
+        if isinstance(e.func, ast.Subscript):
+            extra = [e.func.slice]            # table dispatch: the key is an argument of the model
+        for st1, vs in self.ev_seq(st, extra + exprs):
+            if isinstance(vs, Raised):
+                yield st1, vs
+                continue
+            if model == "log":
+                yield st1, None
+                continue
+            ext = self.store.externals[model]
+            for r in self.lib.apply_external(self, st1, ext, [self.abstract_self(st1)] + list(vs), {}, e):
+                yield r
+
+    def abstract_self(self, st):
+        return st.env.get("self")
+
     def call(self, st, f, args, kwargs, node):
         """apply callee value f; generator of (state, value | Raised)"""
         if isinstance(f, Choice):
@@ -1534,6 +1660,12 @@ class Executor(object):
         if isinstance(f, Closure):
             for r in self.call_closure(st, f, args, kwargs, node):
                 yield r
+            return
+        if isinstance(f, type) and "__init__" in vars(f) and self.is_repo_function(vars(f)["__init__"]):
+            # instantiation of a repository class: a fresh object, initialised by __init__'s contract
+            o = Obj(f, "%s@L%d" % (f.__name__, self.rel_line(node)), allocated=True)
+            for st1, r in self.call_repo(st, vars(f)["__init__"], [o] + list(args), kwargs, node):
+                yield st1, (r if isinstance(r, Raised) else o)
             return
         if self.is_repo_function(f):
             for r in self.call_repo(st, f, args, kwargs, node):
@@ -1590,12 +1722,22 @@ class Executor(object):
 
     def bind_params(self, f, args, kwargs):
         sig = inspect.signature(f)
+        from .libmodels import VarArgs
+        va = [a for a in args if isinstance(a, VarArgs)]
+        if va:
+            args = [a for a in args if not isinstance(a, VarArgs)]
         try:
             ba = sig.bind(*args, **kwargs)
         except TypeError:
             return None
         ba.apply_defaults()
-        return ba.arguments
+        out = dict(ba.arguments)
+        for p in sig.parameters.values():
+            if p.kind == p.VAR_POSITIONAL:
+                out[p.name] = va[0].vl if va else tuple(out.get(p.name, ()))
+            if p.kind == p.VAR_KEYWORD:
+                out[p.name] = dict(out.get(p.name, {}))
+        return out
 
     def inline_call(self, st, c, f, args, kwargs, node):
         """small helpers (stated in the contract store as inline) are executed in place"""
@@ -1665,6 +1807,14 @@ class Executor(object):
             return v
         if sort == "none" and v is None:
             return v
+        if sort == "real" and ops.is_reallike(v):
+            return v if isinstance(v, SReal) else SReal(ops.zreal(v))
+        if sort == "real" and isinstance(v, SVal):
+            return self.narrow(st, v, "num", node, what)
+        if sort == "vl" and isinstance(v, (tuple, list)):
+            return SVL(to_vl(v))
+        if sort == "dict" and isinstance(v, dict):
+            return self.lib.lift_dict(self, st, v, what)
         # wrong static type: the call violates the callee's typing precondition
         self.oblige(st, "pre-type:%s@L%d[%s]" % (what, self.rel_line(node), self.path_label(st)), FALSE,
                     props=self.all_props(self.cur[1]), kind="pre",
@@ -1672,6 +1822,49 @@ class Executor(object):
         return self.fresh_of(sort, what)
 
     def apply_contract(self, st, c, f, args, kwargs, node):
+        """callee contract at a call site, followed by the interference the caller's contract declares for it"""
+        name = f.__name__
+        key = self.call_key(name)
+        caller_beh = self.cur[1]
+        hint = caller_beh.calls.get(key) or caller_beh.calls.get(name) or {}
+        inter = hint.get("interference")
+        for st1, res in self._apply_contract(st, c, f, args, kwargs, node):
+            if inter:
+                self.interfere(st1, inter, node)
+            yield st1, res
+
+    def interfere(self, st, inter, node):
+        """while the callee ran, re-entrant code (a proxy finalizer's _send on this very thread) may have APPENDED
+        messages to the list: list' = list ++ extra, ghost' = ghost ++ extra, for an arbitrary `extra`"""
+        ln = self.rel_line(node)
+        if inter.get("havoc") or inter.get("clock"):
+            # re-entrant code reached through the callee (a reply dispatched while serving) may have changed these
+            before = st.fork()
+            self.havoc_modifies(st, self.spec_scope(st), inter.get("havoc", []), "reentry@L%d" % ln)
+            if inter.get("clock"):
+                self.clock_advance(st, "L%d" % ln)
+            for a in inter.get("assume", []):
+                z, facts = self.spec.evaluate_bool(self, a, st, before, self.spec_scope(st))
+                st.pc.extend(facts)
+                st.assume(z)
+            return
+        lst, _ = self.spec.evaluate(self, inter["vlist"], st, st, self.spec_scope(st))
+        extra = SVL(fresh("reentrant_appends@L%d" % ln, VL))
+        items = self.heap_get(st, lst, "items")
+        st.ghost["Q_before"] = items
+        st.heap[(lst.oid, "items")] = SVL(self.lib.R(self, st, "app", items, extra).z)
+        g = inter.get("ghost")
+        if g:
+            st.ghost[g[0] + "_before"] = st.ghost[g]
+            st.ghost[g] = SVL(self.lib.R(self, st, "app", st.ghost[g], extra).z)
+        st.ghost["extra"] = extra
+        for a in inter.get("assume", []):
+            z, facts = self.spec_bool(st, self.pre_state, a, self.spec_scope(st))
+            st.pc.extend(facts)
+            st.assume(z)
+        self.use_hints(st, inter.get("hints", []))
+
+    def _apply_contract(self, st, c, f, args, kwargs, node):
         name = f.__name__
         key = self.call_key(name)
         caller_beh = self.cur[1]
@@ -1710,7 +1903,7 @@ class Executor(object):
         for pname, v in bound.items():
             if pname not in c.params:
                 raise CheckerError("contract of %s lacks parameter %s" % (c.target, pname))
-            env[pname] = self.coerce(st, v, c.params[pname], "%s.%s" % (name, pname), node)
+            env[pname] = self.coerce(st, v, beh.params.get(pname, c.params[pname]), "%s.%s" % (name, pname), node)
         # ghost instantiation from the caller's hints
         caller_scope = self.spec_scope(st)
         for g, sort in beh.ghost.items():
@@ -1755,6 +1948,8 @@ class Executor(object):
             for ecls in classes:
                 b = st.fork().label("L%d:%s raises %s" % (ln, name, ecls.__name__))
                 self.havoc_modifies(b, env, spec.get("modifies", beh.modifies), "%s@L%d" % (name, ln))
+                if beh.clock:
+                    self.clock_advance(b, "%s@L%d" % (name, ln))
                 for cond in ([spec["when"]] if spec.get("when") else []) + ([spec["only_when"]] if spec.get("only_when") else []):
                     z, facts = self.spec.evaluate_bool(self, cond, pre, pre, env)
                     b.pc.extend(facts)
@@ -1788,12 +1983,20 @@ class Executor(object):
         if beh.noreturn:
             return
         ok = st
+        for cond in beh.returns_when:
+            z, facts = self.spec.evaluate_bool(self, cond, pre, pre, env)
+            ok.pc.extend(facts)
+            ok.assume(z)
+        if not self.feasible(ok):
+            return
         for ename, spec in beh.raises.items():
             if spec.get("when"):
                 z, facts = self.spec.evaluate_bool(self, spec["when"], pre, pre, env)
                 ok.pc.extend(facts)
                 ok.assume(z3.Not(z))
         self.havoc_modifies(ok, env, beh.modifies, "%s@L%d" % (name, ln))
+        if beh.clock:
+            self.clock_advance(ok, "%s@L%d" % (name, ln))
         result = None
         if beh.result and beh.result != "none":
             result = self.fresh_of(beh.result, "%s.result@L%d" % (name, ln))
@@ -1810,8 +2013,8 @@ class Executor(object):
             local = self.local_trace(ncalls, "%s@L%d!" % (name, ln))
             saved, ok2.trace = ok2.trace, local
             for cname, (expr, props) in beh.ensures.items():
-                if INTERNAL_TRACE.search(expr):
-                    continue          # about the callee's own nested calls: an obligation of the callee, no fact for callers
+                if INTERNAL_TRACE.search(expr) or cname.startswith("internal_"):
+                    continue          # about the callee's own nested calls / ghosts: an obligation of the callee only
                 z, facts = self.spec.evaluate_bool(self, expr, ok2, pre, env2)
                 ok2.pc.extend(facts)
                 ok2.assume(z)
@@ -1845,6 +2048,8 @@ class Executor(object):
                 st.heap[key] = SBytes(fresh("joined~%s" % tag, Bytes))
             elif fld == "n":
                 st.heap[key] = SInt(fresh("n~%s" % tag, Int))
+            elif fld == "items" and objs.get(oid) is not None and objs[oid].kind == "vlist":
+                st.heap[key] = SVL(fresh("items~%s" % tag, VL))
             elif fld in ("map", "has") and objs.get(oid) is not None and objs[oid].kind == "dict":
                 st.heap[key] = SArr(fresh("%s~%s" % (fld, tag), z3.ArraySort(Val, Val if fld == "map" else Bool)))
             else:
@@ -1852,6 +2057,8 @@ class Executor(object):
                 srt = self.field_sort(obj, fld) if obj is not None else None
                 if srt is None:
                     raise CheckerError("cannot havoc %s.%s" % (obj, fld))
+                if srt in ("vlist", "dict", "dict:slot", "joinlist"):
+                    continue        # the container object stays; its contents are havocked by their own keys
                 st.heap[key] = self.fresh_of(srt, "%s.%s~%s" % (obj.name, fld, tag))
 
 
